@@ -390,3 +390,24 @@ ADDENDA = {
 }
 for _pid, _add in ADDENDA.items():
     CHECKS[_pid]["text"] = CHECKS[_pid]["text"].rstrip() + _add
+
+# rounds 4 and 5 of the seeded changes
+ADDENDA2 = {
+    'C01': ' Later rounds: TryLock with a context that is already done (KvLock.tla: Cancel for the try kind); Unlock whose Delete loses its reply followed by a hand-off; a record orphaned by a lost Delete request, found again by the same Locker, with any take-over write held back at a gate of its own while the orphan runs out and another caller acquires.',
+    'C02': ' Later rounds: keys with leading slashes; calls made with an already cancelled context (KvLinTrace LinCtx: an error means no effect); sixteen concurrent writers whose versions must all differ (own process).',
+    'C03': " Later rounds: the empty key, a key containing '*', escaped metacharacters, zero-time expirations, unknown version arguments of three kinds (sorting before / after every real one, empty).", 'C05': ' Later rounds: a second blocked caller that gives up after the holder died; Unlock whose Delete is on its way while the renewal takes effect, then the same Locker holds again (LeaseTrace allowance for the one stale attempt of the finished tenure).',
+    'C06': ' Later rounds: records that live for microseconds with a waiter arriving in their last instants (PromptTrace brief line).',
+    'C07': ' Later rounds: a new value that mentions the version it replaces; a waiter that joined another one which gives up before the record runs out; unknown versions that sort after every real one.',
+    'C08': ' Later rounds: a cache whose values are of an interface type with creations that succeed with nil.',
+    'C09': ' Later rounds: a Clear of about 590 resident values with a slow delete callback racing GetOrCreate of the keys it removes.',
+    'C10': ' Later rounds: 260+ removed entries in a row each held by an iterator (NextN lines; the closed form is checked by TLC against Apply); totals of changes around 2^8 and 2^16 between HasNext and Next (unobservable add/remove pairs not logged).',
+    'C11': ' Later rounds: probes keep the newest entries and call First() before the drain; keys removed while their creation is in progress and then fails.',
+    'C12': ' Later rounds: delays at the top of time.Duration; cancelled futures are printed.',
+    'C13': ' Later rounds: InOrder clause of TimerAbs.tla (single-worker executions: no live future more than the gap earlier may be waiting when another is started) in a queue-order scenario; the unlock->select gap as a model state and a third wrong variant (unbuffered wake channel).',
+    'C14': ' Later rounds: RingBuffer[struct{}], RingBuffer[any], a capacity beyond 2^20 with Clear.',
+    'C15': ' Later rounds: bodies of 2^28-1 .. 2^28+1 bytes; 40 million distinct short values decoded in a row.',
+    'C18': ' Later rounds: a Mixer initialised again after Close.',
+    'C19': ' Later rounds: status codes beyond the seventeen; classes reached through an Is method.',
+}
+for _pid, _add in ADDENDA2.items():
+    CHECKS[_pid]["text"] = CHECKS[_pid]["text"].rstrip() + _add
